@@ -327,6 +327,147 @@ def run_case(case):
   return {'nontrivial': res is not None and len(batches) >= 2 and bool(case['slicers']) and late, 'classes': cl}
 
 
+# ------------------------------------------------------------------------------------------------ apply_mask, all documented shape pairs
+def _mk_items(j):
+  """JSON -> items tree: {'l': [...]} list, {'t': [...]} tuple, {'a': [...]} ndarray, {'d': [[k, sub]...]} dict, scalar."""
+  if isinstance(j, dict):
+    (tag, val), = j.items()
+    if tag == 'l':
+      return [_mk_items(v) for v in val]
+    if tag == 't':
+      return tuple(_mk_items(v) for v in val)
+    if tag == 'a':
+      return np.array(val)
+    if tag == 'd':
+      return {k: _mk_items(v) for k, v in val}
+  return j
+
+
+def _mk_mask(j):
+  if isinstance(j, dict):
+    (tag, val), = j.items()
+    if tag == 'l':
+      return [_mk_mask(v) for v in val]
+    if tag == 't':
+      return tuple(_mk_mask(v) for v in val)
+    if tag == 'a':
+      return np.array(val, dtype=bool)
+    if tag == 'd':
+      return {k: _mk_mask(v) for k, v in val}
+  return j
+
+
+_DROP = object()
+
+
+def _ref_mask(items, mask, rep, replace):
+  """Naive reading of the apply_mask docstring. Returns plain Python data (lists for every sequence) or _DROP."""
+  if mask is True:
+    return _plain(items)
+  if mask is False:
+    return rep if replace else _DROP
+  if isinstance(mask, np.ndarray) and mask.dtype == bool and isinstance(items, dict):
+    # an array mask over a dict: applied to every (array) leaf of the dict
+    return {k: _ref_mask(v, mask, rep, replace) for k, v in items.items()}
+  if isinstance(mask, dict):
+    out = {}
+    for k, m in mask.items():
+      r = _ref_mask(items.get(k), m, rep, replace)
+      if r is not _DROP:
+        out[k] = r
+    return out
+  out = []
+  for elem, m in zip(list(items), list(mask)):
+    r = _ref_mask(elem, bool(m) if isinstance(m, (bool, np.bool_)) else m, rep, replace)
+    if r is not _DROP:
+      out.append(r)
+  return out
+
+
+def _plain(x):
+  if isinstance(x, np.ndarray):
+    return [_plain(v) for v in x.tolist()]
+  if isinstance(x, (list, tuple)):
+    return [_plain(v) for v in x]
+  if isinstance(x, dict):
+    return {k: _plain(v) for k, v in x.items()}
+  if isinstance(x, np.generic):
+    return x.item()
+  return x
+
+
+def run_apply_mask(case):
+  from ml_metrics._src.chainables import tree  # pylint: disable=g-import-not-at-top
+  items, mask = _mk_items(case['items']), _mk_mask(case['mask'])
+  replace = case['replace'] is not None
+  what = f'apply_mask({items!r}, masks={mask!r}' + (f', replace_false_with={case["replace"]!r})' if replace else ')')
+  snap = copy.deepcopy(items)
+  kw = {'replace_false_with': case['replace']} if replace else {}
+  got = _guard(lambda: tree.apply_mask(items, masks=mask, **kw), what)
+  want = _ref_mask(items, mask, case['replace'], replace)
+  check(_plain(got) == want, 'mask-application-differs', f'{what} = {got!r}, the documented semantics give {want!r}')
+  check(_plain(items) == _plain(snap), 'masked-input-mutated', f'{what}: the masked input is now {items!r}, was {snap!r}')
+  # container kinds survive where elements are kept one by one
+  if isinstance(items, tuple) and not isinstance(mask, np.ndarray) and mask is not True:
+    check(isinstance(got, tuple), 'container-kind-changed', f'{what} returned {type(got).__name__} for a tuple')
+  kind = next(iter(case['items'])) if isinstance(case['items'], dict) else 'scalar'
+  mkind = next(iter(case['mask'])) if isinstance(case['mask'], dict) else 'scalar'
+  return {'nontrivial': True, 'classes': [f'mask-items-{kind}', f'mask-kind-{mkind}'] + (['replace'] if replace else ['filter'])}
+
+
+def strat_apply_mask(tier):
+  vals = st.integers(0, 9)
+
+  @st.composite
+  def seq_pair(draw, depth):
+    """(items, mask) for a sequence: every position gets True / False / (if nested) a sub-mask."""
+    n = draw(st.integers(0, 4))
+    tag = draw(st.sampled_from(['l', 'l', 't', 'a']))
+    if tag == 'a':
+      # array items: flat values with a list mask or a numpy boolean mask
+      items = {'a': [draw(vals) for _ in range(n)]}
+      bits = [draw(st.booleans()) for _ in range(n)]
+      return items, ({'a': bits} if draw(st.booleans()) else {'l': bits})
+    its, ms = [], []
+    for _ in range(n):
+      if depth > 0 and draw(st.integers(0, 2)) == 0:
+        sub_i, sub_m = draw(seq_pair(depth - 1))
+        whole = draw(st.sampled_from([None, None, True, False]))
+        its.append(sub_i)
+        ms.append(sub_m if whole is None else whole)
+      else:
+        its.append(draw(vals))
+        ms.append(draw(st.booleans()))
+    # a numpy boolean mask selects rows of a flat column (items convertible to an array); nested items take list / tuple masks
+    flat = all(isinstance(m, bool) for m in ms) and all(not isinstance(i, dict) for i in its)
+    mtag = 'a' if (flat and draw(st.integers(0, 3)) == 0) else draw(st.sampled_from(['l', 't']))
+    return {tag: its}, {mtag: ms}
+
+  @st.composite
+  def s(draw):
+    shape = draw(st.sampled_from(['seq', 'seq', 'dict_dict', 'array_over_dict', 'true']))
+    if shape == 'seq':
+      items, mask = draw(seq_pair(2))
+    elif shape == 'true':
+      items, mask = draw(seq_pair(1))[0], True
+    elif shape == 'dict_dict':
+      keys = draw(st.lists(st.sampled_from(['p', 'q', 'r']), min_size=1, max_size=3, unique=True))
+      its, ms = [], []
+      for k in keys:
+        sub_i, sub_m = draw(seq_pair(1))
+        its.append([k, sub_i])
+        if draw(st.integers(0, 4)) > 0:      # keys missing from the mask are dropped
+          ms.append([k, draw(st.sampled_from([sub_m, sub_m, True, False]))])
+      items, mask = {'d': its}, {'d': ms}
+    else:
+      n = draw(st.integers(0, 4))
+      keys = draw(st.lists(st.sampled_from(['p', 'q', 'r']), min_size=1, max_size=3, unique=True))
+      items = {'d': [[k, {'a': [draw(vals) for _ in range(n)]}] for k in keys]}
+      mask = {'a': [draw(st.booleans()) for _ in range(n)]}
+    return {'items': items, 'mask': mask, 'replace': draw(st.sampled_from([None, None, 0, -1, 7]))}
+  return s()
+
+
 def strat(tier):
   maxb, maxn = (4, 5) if tier == 'quick' else (6, 8)
 
@@ -412,6 +553,8 @@ def strat(tier):
 
 
 SCENARIOS = [
+    Scenario('mask_application', run_apply_mask, strategy=strat_apply_mask, budget={'quick': 2000, 'thorough': 40000},
+             shards={'quick': 2, 'thorough': 8}),
     Scenario('group_by', run_case, strategy=strat, budget={'quick': 3000, 'thorough': 40000},
              shards={'quick': 12, 'thorough': 16},
              fuzz_runs={'thorough': 60000}, instrument=('ml_metrics._src.chainables.transform', 'ml_metrics._src.chainables.tree_fns', 'ml_metrics._src.chainables.tree', 'ml_metrics._src.utils.iter_utils')),
